@@ -20,7 +20,8 @@ import (
 
 type Variant struct {
 	Name string
-	Make func() *vsched.Scenario
+	Make func() *vsched.Scenario                 // scheduled scenario, or
+	Run  func(opt vsched.Options) *vsched.Report // a sequential explorer (BFS / enumeration) with its own search
 }
 
 var registry = map[string]func(tier string) []Variant{}
@@ -97,6 +98,27 @@ func main() {
 			fmt.Fprintln(os.Stderr, "unknown scenario/variant in replay file")
 			os.Exit(2)
 		}
+		if v.Run != nil {
+			// sequential explorers replay an operation list: choices index the variant's op table
+			opt := vsched.Options{Prefix: rf.Choices, Trace: true}
+			rep := v.Run(opt)
+			hit := false
+			for _, f := range rep.Found {
+				fmt.Printf("verdict: %s: %s\n", f.Sig, f.Msg)
+				for _, l := range f.Trace {
+					fmt.Println("  ", l)
+				}
+				if f.Sig == rf.Sig {
+					hit = true
+				}
+			}
+			if hit {
+				fmt.Printf("VIOLATION property=%s replay=%s\n", rf.Property, *replay)
+				os.Exit(1)
+			}
+			fmt.Println("replay: recorded violation did not occur")
+			return
+		}
 		x, vs := vsched.Replay(v.Make(), rf.Choices)
 		for _, l := range x.Trace {
 			fmt.Println(l)
@@ -125,7 +147,12 @@ func main() {
 	if *deadline > 0 {
 		opt.Deadline = time.Now().Add(time.Duration(*deadline) * time.Second)
 	}
-	rep := vsched.Explore(v.Make(), opt)
+	var rep *vsched.Report
+	if v.Run != nil {
+		rep = v.Run(opt)
+	} else {
+		rep = vsched.Explore(v.Make(), opt)
+	}
 	o := WorkerOut{Scenario: *sc, Variant: *vname, Report: rep}
 	js, _ := json.Marshal(o)
 	if *outp != "" {
